@@ -6,10 +6,87 @@ Both public parse entry points are driven over (i) every token sequence up to a 
 robustness corpus (repository texts, mutations, random UTF-8, token soup, deep nesting).  Hooks turn a
 non-terminating grammar loop into an attributable panic.  A stride sample of the recorded parse
 observations (tree rows, diagnostics) is validated by TLC against TreeTrace.tla / TreeShape.tla.
+
+Protocol level (machine spec Events.tla): TLC explores every disciplined Marker-API call sequence up to a
+bound over every trivia layout, proves on the model that event::process + intersperse_trivia deliver a
+balanced, lossless step sequence to the builder (TreeShapeHolds, BuilderNeverOverruns, Balanced), and
+exports every finished behaviour; the harness executes each on the REAL Parser / Marker / process /
+LexedStr::intersperse_trivia (hook oq3_parser::verif::drive) and compares the delivered steps (B1).
 """
 import os, sys
 sys.path.insert(0, os.path.dirname(os.path.abspath(__file__)))
 from parsecommon import *
+
+
+def events_protocol(c):
+    cfg = "MCEvents.cfg" if c.quick else "MCEvents_big.cfg"
+    r = run_tlc("events", "MCEvents", cfg, workers=8, timeout=3000, cache_key="v1", keep_tags=["CASE"], xmx="16g")
+    if not r.ok:
+        c.tool_error(f"MCEvents {cfg}: {r.violated or r.error_text} {r.raw_tail[-600:]}")
+    cases = r.tagged.get("CASE", [])
+    cf = os.path.join(c.work, "evcases.ndjson"); of = os.path.join(c.work, "evcases_out.json")
+    with open(cf, "w") as fh:
+        for x in cases:
+            fh.write(json.dumps(x) + "\n")
+    p = run_harness(["events-cases", cf, of], timeout=3000)
+    if p.returncode != 0:
+        c.tool_error("events-cases failed: " + p.stderr[-1500:])
+    d = json.load(open(of))
+    nd = 0
+    for f in d["failures"]:
+        if f["kind"] == "drift":
+            nd += 1
+            if len(c.drift) < 3:
+                c.drift.append({"calls": f["calls"], "text": f["text"], "expected": f["expected"], "observed": f["observed"]})
+        else:
+            c.report({"kind": "protocol_" + f["kind"], "what": f["what"], "text": f["text"], "calls": f["calls"], "site": f.get("site") or "",
+                      "panic": f.get("panic"), "observed": f.get("observed"), "expected": f.get("expected")})
+    if nd:
+        c.notes.append(f"model drift: {nd} Marker-API behaviours deliver other (still lossless) steps than Events.tla predicts")
+    # B3: the calls the REAL grammar makes while parsing corpus / mutated / random texts, validated against the protocol spec
+    cp = os.path.join(c.work, "corpus.json")
+    json.dump(corpus_mod.collect(), open(cp, "w"))
+    ev = os.path.join(c.work, "evtrace.ndjson")
+    nm, nr = (12, 12) if c.quick else (150, 150)
+    p = run_harness(["evtrace-record", c.seed, cp, nm, nr, 60, ev], timeout=3000)
+    if p.returncode != 0:
+        c.tool_error("evtrace-record failed: " + p.stderr[-1500:])
+    rec = json.loads(p.stdout.strip().splitlines()[-1])
+    for pn in rec["panics"][:3]:
+        c.report({"kind": "panic", "what": "parse panicked while its Marker-API calls were recorded", "text": pn["text"], "panic": pn["panic"], "site": (pn["panic"] or {}).get("func", "")})
+    tr = run_tlc("events", "EventsTrace", "EventsTrace.cfg", workers=1, timeout=3000, dfs=True, xss="1g", env={"TRACE": ev})
+    rej = tr.tagged.get("REJECT")
+    if rej:
+        rj = rej[0]; e = rj["rec"]
+        lines = open(ev).read().split("\n")
+        text = None
+        for k in range(rj["line"] - 1, -1, -1):
+            x = json.loads(lines[k])
+            if x["ev"] == "begin":
+                text = x["text"]; break
+        bad_native = False
+        if e.get("ev") == "end":
+            flat = [i for x in e["sink"] if x["s"] == "token" for i in x["raw"]]
+            depth = 0; shape = True
+            for x in e["sink"]:
+                if x["s"] == "enter": depth += 1
+                elif x["s"] == "exit": depth -= 1
+                elif x["s"] == "token" and (depth <= 0 or not x.get("exact", True)): shape = False
+                if depth < 0: shape = False
+            bad_native = not (flat == list(range(1, len(flat) + 1)) and shape and depth == 0 and e.get("consumed_all"))
+        if bad_native:
+            c.report({"kind": "protocol_lossless", "what": "the steps the real parse handed to the tree builder do not tile the raw tokens / do not form one balanced tree", "text": text, "site": "", "observed": e["sink"][:40]})
+        else:
+            nd += 1
+            c.drift.append({"via": "EventsTrace", "text": text, "record": {k: v for k, v in e.items() if k not in ("events", "sink")}, "state": rj.get("state")})
+            c.notes.append("model drift: the grammar's Marker-API calls (or the resulting raw events / builder steps) are not a behaviour of Events.tla for the text above; the C02 clauses still hold on the delivered steps")
+    elif not tr.ok:
+        c.tool_error(f"EventsTrace validation did not complete: {tr.error_text} {tr.raw_tail[-600:]}")
+    c.cov["events_protocol"] = {"cfg": cfg, "states": r.distinct, "behaviours_replayed": d["cases"], "drift": nd,
+                                "grammar_parses_validated": rec["parses"], "grammar_call_records_validated": (tr.distinct - 1) if tr.ok else 0}
+    c.cov["states"] = c.cov.get("states", 0) + r.distinct + tr.distinct
+    c.cov["traces_validated_against_impl"] = c.cov.get("traces_validated_against_impl", 0) + rec["parses"]
+    c.assumptions.append("Events.tla: NT<=2 raw '+' tokens (thorough 3), <=7 (9) API calls, <=1 blank of trivia per gap; disciplined clients (innermost-marker completion, precede on the last completed child, jointness-respecting glued bumps) are taken to include every call sequence the grammar makes")
 
 
 def main():
@@ -18,6 +95,7 @@ def main():
     c.assumptions += ["bounds (DESIGN 5/C01): random inputs <= 4 KiB, nesting <= 64, token sequences <= 5 (thorough) / <= 4 (quick) as Input, <= 4 / <= 3 as text",
                       "rowan and the Unicode tables are trusted", "linear work is measured as parser events <= 64 * (tokens + 1)"]
     run(c, {"C02"})
+    events_protocol(c)
     c.finish()
 
 
